@@ -31,7 +31,8 @@ FINDING_IDS = ["C18-empty-value-matcher-dropped", "C18-absent-label-matcher-igno
                "C18-range-binop-pairs-next-series-after-end", "C18-instant-range-function-drops-series-ending-stale",
                "C18-holt-winters-infinite-sample-nan", "C18-absent-label-kept-despite-second-matcher",
                "C18-min-max-aggregation-sentinel-start-value", "C18-range-selector-trailing-step-lost",
-               "C18-ignoring-label-kept-in-result", "C18-vector-comparison-filter-with-offset-operand-loses-elements"]
+               "C18-ignoring-label-kept-in-result", "C18-vector-comparison-filter-with-offset-operand-loses-elements",
+               "C18-range-comparison-filter-keeps-nan"]
 
 
 _PORT_LOCK = None   # keeps the flock on the chosen port block for the life of this process
